@@ -59,7 +59,7 @@ func loadsOfCell(fn *ssa.Function, cell *ssa.Alloc) []ssa.Value {
 }
 
 func c08(c *core.Ctx) {
-	c.Explain("C08 (will message): decided statically — R1 in unregisterClient the will is neither sent nor scheduled when a suppressing DISCONNECT was processed or no will is registered; R2 a DISCONNECT with reason code 0x04 (Disconnect with Will Message) does not set the suppression flag while 0x00 does, and the flag is set only after the DISCONNECT was validated; R3 on reconnect registerClient cancels the pending will on the resume branch (signal(false)) and fires it on the discard branch (signal(true)); R4 the delayed-will goroutine uses the value received on the cancel/send channel, takes the server lock, removes its table entry before sending, and sends at most once and only when told to; R5 the delay is min(Will Delay Interval, Session Expiry Interval) and a delayed will is scheduled only when the session is actually stored.")
+	c.Explain("C08 (will message): decided statically — R1 in unregisterClient the will is neither sent nor scheduled when a suppressing DISCONNECT was processed or no will is registered; R2 a DISCONNECT with reason code 0x04 (Disconnect with Will Message) does not set the suppression flag while 0x00 does, and the flag is set only after the DISCONNECT was validated; R3 on reconnect registerClient cancels the pending will on the resume branch (signal(false)) and fires it on the discard branch (signal(true)); R4 the delayed-will goroutine uses the value received on the cancel/send channel, takes the server lock, removes its table entry before sending, and sends at most once and only when told to; R5 the delay is min(Will Delay Interval, Session Expiry Interval) and a delayed will is scheduled only when the session is actually stored. Added in the second round: Cancelling / firing the pending will at re-connect does not depend on an optional hook being installed.")
 	c.NotDecided("timing relative to the delay and the expiry interval (real time), exactly-once over all ways a connection ends")
 	p := c.P
 	fl := ssax.NewFlow()
